@@ -106,9 +106,13 @@ package sql
 // Rendering any SQL object has no side effects on the tree; a string value
 // renders as its escaped literal ((*StringVal).String above implements this
 // interface method; the two contracts state the same text for a *StringVal).
+// (sqlText: what an object renders in a given context - rendering reads, it does not
+// change what is rendered; assumed for the implementations, as the frame is.)
+//@ spec fn sqlText(o SQLObject, c *Ctx) string
 //@ iface (SQLObject).String(ctx, options)
 //@   modifies nothing
 //@   ensures typeis(recv, "*StringVal") ==> result1 == nil && result0 == "'" + sqlEsc(unbox(recv, "*StringVal").val) + "'"
+//@   ensures result1 == nil ==> result0 == sqlText(recv, ctx)
 
 //@ func NewOrderBy [C13]
 //@   modifies nothing
